@@ -395,6 +395,12 @@ Result<WorkResult, WorkError>
             }
             else
             {
+                match info.blob.refresh_restored_file_states(&info.system, &resolutions)
+                {
+                    Ok(()) => {},
+                    Err(error) => return Err(WorkError::GetCurrentFileInfoError(error)),
+                }
+
                 let file_state_vec = match info.blob.get_current_file_state_vec(&info.system)
                 {
                     Ok(file_state_vec) => file_state_vec,
